@@ -66,7 +66,7 @@ PROPS = {
         "lean_targets": ["Proofs.GenWordOps", "Proofs.GenTables"],
     },
     "C07": {
-        "extra_modules": ["C07b"],
+        "extra_modules": ["C07b", "C07c"],
         "gens": [{"name": "ww", "harness": "kernharness", "quick": 3000, "thorough": 20000},
                  {"name": "vec", "harness": "kernharness", "quick": 4000, "thorough": 30000}],
         "needs": ["kernharness"],
